@@ -17,7 +17,7 @@ HEAP_BIG = {"JAVA_TOOL_OPTIONS": "-Xss64m -Xmx6g"}
 HEAP_SMALL = {"JAVA_TOOL_OPTIONS": "-Xss64m -Xmx2g"}
 HEAP_TRACE = {"JAVA_TOOL_OPTIONS": "-Xss64m -Xmx2g -Dtlc2.tool.queue.IStateQueue=StateDeque"}
 
-ENV_OPS = {"Arrive", "Disconnect", "CloseListener", "StopBegin", "ThAdd", "ThRefuse", "ThCheck", "AllowCheck", "Refuse", "Handshake",
+ENV_OPS = {"Arrive", "Disconnect", "CloseListener", "StopBegin", "Stop2Begin", "ThAdd", "ThRefuse", "ThCheck", "AllowCheck", "Refuse", "Handshake",
            "Handle", "ThDone", "AddPeer"}
 FAIL_OUT = {"lost", "rejected", "dropsub", "dropshut", "droppeer"}
 
@@ -69,7 +69,8 @@ M_THOROUGH = [("Limits_rpc_mc.cfg", "RPC pipeline 2 peers x 2 RPCs, caps {1,2} x
 M_DEVS = [("Limits_conn_cap.cfg", "PeerCaps"),             # the code as it is: check-then-act
           ("Limits_rpc_dev_leak.cfg", "NoSlotLeak"),
           ("Limits_rpc_dev_drop.cfg", "BackPressureNotDrop"),
-          ("Limits_tg_dev.cfg", None)]
+          ("Limits_tg_dev.cfg", None),
+          ("Limits_tg_dev2.cfg", "StopWaits")]
 
 
 def leg_m(wd, tier):
@@ -187,7 +188,7 @@ def rpc_obs(s):
             elif o in FAIL_OUT or ((s["peersClosed"] or not s["loopOn"][p]) and st != "new"):
                 failed.append(name)
     return {"inside": sorted(inside), "answered": sorted(answered), "failed": sorted(failed),
-            "closed": s["stop"] == "returned", "sub": {k: v for k, v in s["sub"].items() if v}}
+            "closed": s["stop"] == "returned", "closed2": s["stop2"] == "returned", "sub": {k: v for k, v in s["sub"].items() if v}}
 
 
 def quiescent(s):
@@ -208,7 +209,7 @@ def leg_r_rpc(wd, tier, binary, verdict, mutate=None):
     states, inits, macro = macro_graph(r.edges)
     need_ops(r.edges, {"Arrive", "AcquirePeer", "AcquireSubnet", "DropSubnet", "Spawn", "TgAdd", "Handle", "HandleDone",
                        "ReleaseSubnet", "ReleasePeer", "LoopExit", "Abandon", "CloseListener", "StopBegin", "StopWait", "StopReturn",
-                       "ClosePeers", "RunExit"}, "RPC")
+                       "Stop2Begin", "Stop2Return", "ClosePeers", "RunExit"}, "RPC")
     rng = random.Random(vlib.seed())
     groups = []
     npaths = nsteps = 0
@@ -216,7 +217,13 @@ def leg_r_rpc(wd, tier, binary, verdict, mutate=None):
     per_group = 10 if tier == "quick" else None
     for lim, es, paths in cover_by_config(macro, rng, 40):
         total_paths += len(paths)
-        paths = sample_paths(paths, per_group, rng)
+        overlap = [p for p in paths if any(e["act"]["op"] == "Stop2Begin" and rpc_obs(e["to"])["inside"] for e in p)]
+        if not overlap:
+            raise vlib.Infra("no cover path calls Close a second time while a handler is inside")
+        picked = sample_paths(paths, per_group, rng)
+        if per_group is not None:
+            picked = picked + [p for p in sample_paths(overlap, 3, rng) if p not in picked]
+        paths = picked
         groups.append({"maxInflight": lim["maxInflight"], "maxSubnet": lim["maxSubnet"], "subnets": lim["sub"],
                        "nrpc": max(len(v) for v in es[0]["from"]["st"].values()),
                        "paths": [[{"act": e["act"], "obs": rpc_obs(e["to"]), "quiescent": quiescent(e["to"])} for e in p] for p in paths]})
@@ -326,18 +333,20 @@ def leg_r_conn(wd, tier, binary, verdict):
 def tg_obs(s):
     th = s["th"]
     return {"live": sorted(t for t, v in th.items() if v == "live"), "done": sorted(t for t, v in th.items() if v == "done"),
-            "refused": sorted(t for t, v in th.items() if v == "refused"), "closed": s["stop"] == "returned"}
+            "refused": sorted(t for t, v in th.items() if v == "refused"), "closed": s["stop"] == "returned",
+            "closed2": s["stop2"] == "returned"}
 
 
 def leg_r_tg(wd, tier, binary, verdict, targets=None):
     r = vlib.run_tlc(wd, "MCLimits", "Limits_tg_edges.cfg", workers=1, timeout=600, env=HEAP_SMALL)
     vlib.tlc_must_pass(r, "Limits TG edge export")
     states, inits, macro = macro_graph(r.edges)
-    need_ops(r.edges, {"ThAdd", "ThRefuse", "ThDone", "StopBegin", "StopWait", "StopReturn"}, "TG")
+    need_ops(r.edges, {"ThAdd", "ThRefuse", "ThDone", "StopBegin", "StopWait", "StopReturn", "Stop2Begin", "Stop2Return"}, "TG")
     rng = random.Random(vlib.seed() + 2)
     paths = vlib.path_cover(macro, max_paths=None, rng=rng, max_len=30)
     total = len(paths)
-    paths = sample_paths(paths, 40 if tier == "quick" else None, rng)
+    if not any(e["act"]["op"] == "Stop2Begin" and tg_obs(e["to"])["live"] for p in paths for e in p):
+        raise vlib.Infra("no cover path calls Stop a second time while a member is live")
     inp = os.path.join(wd, "replay_tg_in.json")
     json.dump({"threads": sorted(macro[0]["from"]["th"]), "targets": targets or [],
                "paths": [[{"act": e["act"], "obs": tg_obs(e["to"])} for e in p] for p in paths]}, open(inp, "w"))
